@@ -7,6 +7,8 @@ from lib import log, ToolError
 def run_property(ctx, P):
     if "slices" in P:
         lib.model_stage(ctx, P["slices"](ctx.tier), P["fatal"])
+    if P.get("traces", False):
+        lib.trace_stage(ctx, P["fatal"], **P.get("trace_opts", {}))
     for st in P.get("stages", []):
         st(ctx)
     return lib.finish(ctx, P["level"], P["rule"], P["assumptions"])
